@@ -85,7 +85,7 @@ Definition check_case (c : case) : list N :=
   | CReject rule b h =>
       (* by construction of b the decoder must refuse *)
       flag 2 (hobs_eqb h (Some None)) ++
-      flag 1 (hobs_eqb (model_h b) (Some None))
+      flag 1 (hobs_eqb (model_h b) h)
   | CSchema m enc h =>
       let M := msg_of_tuple m in
       flag 1 (nlist_eqb (schema_encode M) enc) ++
